@@ -92,6 +92,8 @@ Variable base : Z -> V.            (* DefaultAttrDict built from cls.Attributes 
 Variable over1 over2 : Z -> V -> V.  (* .update(prot_attrs[protocol class]) / .update(prot_attrs[protocol instance]) *)
 Variable has_prot : Z -> bool.     (* bool(cls.Attributes.prot_attrs) *)
 Variable mf : Z -> V.              (* the (pure) function wrapped by @memoize *)
+Variable pre : bool.               (* the WSDL was built at start-up (wsgi_app.doc.wsdl11.build_interface_document(url),
+                                      the usage the class documents) before the first request *)
 Variable sf : Z -> V.              (* the sorted field list of a class: computed from cls.get_flat_type_info and
                                       the COMPLETE attributes of the field types (get_cls_attrs(v).order) *)
 
@@ -239,7 +241,7 @@ Definition tinit (v : variant) (q : req) : tstate :=
   end.
 
 Definition init (v : variant) (reqs : Z -> req) : state :=
-  {| app_wsdl := None; b_wsdl := None; b_gen := 0; wlock := None;
+  {| app_wsdl := None; b_wsdl := (if pre then Some 0 else None); b_gen := (if pre then 1 else 0); wlock := None;
      cache := fun _ => None; heap := fun _ => base 0; next := 0;
      errlog := None; vlock := None; memo := fun _ => None; mlock := None;
      scache := fun _ => None; thr := fun t => tinit v (reqs t) |}.
